@@ -146,5 +146,14 @@ for sid, (file, what, needs) in sorted(T.items()):
         'how_checked': 'tools/seedmatrix.py applies patch.diff to a scratch copy of the sources (never /repo), runs ./check <Cnn> with SLU_REPO pointing at the copy, removes the copy',
         'checks_run': sorted(p for p, v in mx.get(sid, {}).items() if isinstance(v, list)),
     }
-    json.dump(meta, open(os.path.join(d, 'meta.json'), 'w'), indent=1)
+    mp = os.path.join(d, 'meta.json')
+    if os.path.exists(mp):
+        try:
+            old = json.load(open(mp))
+            for k in ('retired', 'rebased'):        # hand-written notes survive regeneration
+                if k in old:
+                    meta[k] = old[k]
+        except ValueError:
+            pass
+    json.dump(meta, open(mp, 'w'), indent=1)
 print('wrote', len(T))
